@@ -28,9 +28,12 @@ def t_walk(chk, ix):
     # every counted step is counted under its own final status: no two scenarios / outline rows share a Step object
     from .. import rules_order
     rules_order.check_step_order(chk, ix)
+    # what a reporter has collected belongs to that reporter (and that run): no class-level lists filled through self
+    from .. import rules_generic
+    rules_generic.check_shared_class_state(chk, ix, ("behave.reporter", "behave.summary", "behave.model_visitor"))
 
 
 def run(chk, ix, tier):
     run_parallel(chk, [(t_walk, ()), (T.t_run_model, (("Y4",),))])
-    for r, n in (("Y1", 6), ("Y2", 20), ("Y4", 1), ("Y5", 2), ("Y6", 2), ("Y7", 20)):
+    for r, n in (("Y1", 6), ("Y2", 20), ("Y4", 1), ("Y5", 2), ("Y6", 2), ("Y7", 20), ("RF9", 8)):
         chk.require_instances(r, n)
